@@ -25,9 +25,8 @@ def gen_cases(tier, seed):
     cases = []
     progs = {k: v for k, v in programs.basic_programs().items()}
     rng = plans.rng_for(seed, 'c05')
-    if tier == 'thorough':
-        for n in range(40):
-            progs['rnd%d' % n] = programs.random_program(rng, 5)
+    for n in range(40 if tier == 'thorough' else 6):
+        progs['rnd%d' % n] = programs.random_program(rng, 5)
     for name, prog in sorted(progs.items()):
         n = plans.slots_of(prog)
         plist = [[]]
